@@ -834,6 +834,20 @@ class NumpyProxy(object):
             return LDtype(None)
         return LDtype(np.promote_types(la, lb))
 
+    def result_type(self, *args):
+        """numpy.result_type over dtypes, some of which are logical dtypes of symbolic arrays"""
+        if not any(isinstance(a, LDtype) or a is Sym or a is SymC for a in args):
+            return np.result_type(*args)
+        la = []
+        for a in args:
+            try:
+                la.append(as_logical(a))
+            except TypeError:
+                la.append(as_logical(getattr(a, 'dtype', None)))
+        if any(l is None for l in la):
+            return LDtype(None)
+        return LDtype(np.result_type(*la))
+
     def broadcast_arrays(self, *args, **kw):
         kw['subok'] = True
         return np.broadcast_arrays(*args, **kw)
